@@ -9,6 +9,7 @@ import (
 	"verifharness/gen"
 	"verifharness/mon"
 	"verifharness/ref"
+	"verifharness/yqx"
 )
 
 // C16 — path, key and parent describe where a node actually is.
@@ -285,6 +286,33 @@ func (p c16) Run(w *mon.Worker, idx int) mon.Result {
 		writeBack = true
 		res.Tags = append(res.Tags, "variable_then_delete")
 	}
+	rawText := ""
+	if !writeBack && !pair && r.IntN(12) == 0 {
+		switch r.IntN(3) {
+		case 0:
+			// padding: a write beyond the end of a sequence creates the elements in between; they are where they are
+			if f.seq {
+				input = ref.MapV(ref.KV{K: "y", V: doc}, ref.KV{K: "keep", V: ref.IntV(1)})
+				full = fmt.Sprintf(".y[%d] = 9 | .y", len(doc.A)+1+r.IntN(3))
+				prefix, writeBack = []any{"y"}, true
+				res.Tags = append(res.Tags, "padded_write")
+			}
+		case 1:
+			input = ref.MapV(ref.KV{K: "y", V: doc}, ref.KV{K: "keep", V: ref.IntV(1)})
+			full = fmt.Sprintf(".n[%d].k = 1 | .n", 1+r.IntN(3))
+			prefix, writeBack = []any{"n"}, true
+			res.Tags = append(res.Tags, "padded_autocreate")
+		default:
+			// explode: entries that come in through merge keys (also replacing one another) belong to the map they are merged into
+			rawText = c16MergeDoc(r)
+			full = "explode(.)"
+			if r.IntN(3) == 0 {
+				full = []string{"explode(.) | .two", "explode(.two) | .two", "explode(.) | .five"}[r.IntN(3)]
+				prefix, writeBack = []any{strings.TrimPrefix(full[strings.LastIndex(full, " .")+1:], ".")}, true
+			}
+			res.Tags = append(res.Tags, "explode_merges")
+		}
+	}
 	inFmt := "yaml"
 	hasFloat := false
 	input.Walk(nil, func(_ []any, n *ref.V) {
@@ -297,6 +325,9 @@ func (p c16) Run(w *mon.Worker, idx int) mon.Result {
 		res.Tags = append(res.Tags, "decoder:json")
 	}
 	cs := map[string]any{"doc": input.JSON(), "f": full, "input_format": inFmt}
+	if rawText != "" {
+		cs["doc"] = rawText
+	}
 	res.Case = cs
 	res.Sig = fmt.Sprintf("%s|%v|%x", f.name, writeBack, doc.ShapeHash())
 	fail := func(fm string, a ...any) mon.Result {
@@ -305,7 +336,25 @@ func (p c16) Run(w *mon.Worker, idx int) mon.Result {
 		return res
 	}
 	q := func(suffix string) (*ref.V, error) {
-		v, _, err := evalDocFmt(full+" | "+suffix, input, inFmt)
+		var v *ref.V
+		var err error
+		if rawText != "" {
+			out, e1, pan := yqx.Eval(full+" | "+suffix, rawText, "yaml", "json")
+			err = e1
+			if pan != nil {
+				err = fmt.Errorf("panic: %s", pan.Sig())
+			}
+			if err == nil {
+				vs, pe := ref.ParseJSONStream(out)
+				if pe != nil || len(vs) != 1 {
+					err = fmt.Errorf("not exactly one result")
+				} else {
+					v = vs[0]
+				}
+			}
+		} else {
+			v, _, err = evalDocFmt(full+" | "+suffix, input, inFmt)
+		}
 		res.Evals++
 		if err == nil && v == nil {
 			err = fmt.Errorf("not exactly one result")
@@ -523,4 +572,27 @@ func (p c16) Run(w *mon.Worker, idx int) mon.Result {
 		}
 	}
 	return fail("%s\n f = %s\n doc = %s\n value = %s\n paths = %s", violation, full, input, clipStr(root.JSON(), 300), clipStr(paths.JSON(), 300))
+}
+
+
+// c16MergeDoc: block-style YAML whose maps get entries through merge keys in every arrangement: one
+// alias, a list whose maps share keys, an explicit key before / after the merge key, a merge of a merge.
+func c16MergeDoc(r *rand.Rand) string {
+	var sb strings.Builder
+	n := func() int { return r.IntN(9) }
+	fmt.Fprintf(&sb, "base: &base\n  limits: {cpu: %d, mem: %d}\n  name: b\n  list: [1, {q: %d}]\n", n(), n(), n())
+	fmt.Fprintf(&sb, "extra: &extra\n  limits: {cpu: %d}\n  tag: x\n", n())
+	if r.IntN(2) == 0 {
+		sb.WriteString("two:\n  <<: [*base, *extra]\n  own: 1\n")
+	} else {
+		sb.WriteString("two:\n  own: 1\n  <<: [*extra, *base]\n")
+	}
+	fmt.Fprintf(&sb, "three:\n  limits: {cpu: %d}\n  <<: *base\n", n())
+	fmt.Fprintf(&sb, "four:\n  <<: *base\n  limits: {cpu: %d, extra: [1]}\n", n())
+	fmt.Fprintf(&sb, "nested: &n\n  <<: *extra\n  z: %d\n", n())
+	sb.WriteString("five:\n  <<: *n\n  w: 2\n")
+	if r.IntN(2) == 0 {
+		sb.WriteString("six:\n  - <<: [*n, *base]\n    k: 1\n  - *extra\n")
+	}
+	return sb.String()
 }
